@@ -36,6 +36,9 @@ func runC10(c *core.Ctx) {
 		if !c.Mine(idx) {
 			continue
 		}
+		if c.Enough() {
+			break
+		}
 		id := fmt.Sprintf("t%d", idx)
 		if !c.CaseQuiet(id) {
 			continue
